@@ -89,7 +89,7 @@ def queries(tier):
     qs += tc.avl_hist(PROP, NM, tier, extra=["NULLTOK=2"])
     if tier == "thorough":
         # H=4: notifier accounting of the operation itself; the p_tree_free pass over a 16-node symbolic tree is left to the clear_h4 queries
-        qs += tc.thorough_h4(PROP, (), newmode=NM, skip_two_child=is_open)
+        qs += tc.thorough_h4(PROP, (), newmode=NM, skip_two_child=is_open, replace_extra=["REPLACE_SYM"])
         qs.append(step(PROP, 0, 4, 4, newmode=NM, extra=["SYM_MAG"], timeout=1800))
         qs.append(step(PROP, 1, 4, 4, newmode=NM, extra=["SYM_MAG"], timeout=1800))
         qs += [hist(PROP, 0, 4, NM, extra=["NULLTOK=1"], timeout=2400), hist(PROP, 1, 4, NM, timeout=3000)]
